@@ -211,6 +211,25 @@ static int nest(int rounds){ dispatch_queue_t cq2=dispatch_queue_create("n.c",DI
     if(!viol && atomic_load(&anote)!=1) fail("the notification of group A did not run exactly once after its block had finished: round/kind/runs",r,inner,atomic_load(&anote));
     dispatch_sync(sq,^{}); dispatch_barrier_sync(cq2,^{}); usleep(200); dispatch_release(A); dispatch_release(B); items++; }
   return items; }
+// mode "push <seed> <rounds>": notifications pushed onto the group's list from several threads while another thread's leave walks a
+// snapshot of it. A pusher that has exchanged the list's tail and not yet linked its entry to the previous one is held for a moment
+// (atomic hook, after the exchange in _dispatch_group_notify): the walker has to wait for that link, not take the missing link for the
+// end of the list. Two threads do enter; notify; leave, four only notify, on one reused group. Oracle: every notification registered
+// has run, once, when all threads are done and the group is empty.
+static atomic_long pu_reg, pu_ran; static atomic_int pu_stop;
+static void pu_note(void *c){ (void)c; atomic_fetch_add(&pu_ran,1); }
+static void pu_cb(const volatile void *addr, unsigned size, int op, uint64_t o, uint64_t n, const char *func, int line){ (void)addr;(void)size;(void)o;(void)n;(void)line;
+  if(op==2 && !strcmp(func,"_dispatch_group_notify") && rnd()%2) usleep((useconds_t)(rnd()%60)); }      // op 2: exchange (of the list's tail)
+static void *pu_el(void *a){ (void)a; while(!atomic_load(&pu_stop)){ dispatch_group_enter(G); atomic_fetch_add(&pu_reg,1); dispatch_group_notify_f(G,cq,NULL,pu_note); if(rnd()%4==0) usleep(rnd()%30); dispatch_group_leave(G); } return 0; }
+static void *pu_n(void *a){ (void)a; while(!atomic_load(&pu_stop)){ atomic_fetch_add(&pu_reg,1); dispatch_group_notify_f(G,cq,NULL,pu_note); if(rnd()%8==0) usleep(rnd()%40); } return 0; }
+static int push(int rounds){ G=dispatch_group_create(); cq=dispatch_queue_create("c",DISPATCH_QUEUE_CONCURRENT); int items=0;
+  for(int r=0;r<rounds && !viol;r++){ atomic_store(&pu_stop,0); atomic_store(&pu_reg,0); atomic_store(&pu_ran,0); _dispatch_verif_atomic_cb=pu_cb;
+    pthread_t t[6]; for(int i=0;i<2;i++) pthread_create(&t[i],0,pu_el,0); for(int i=2;i<6;i++) pthread_create(&t[i],0,pu_n,0);
+    usleep(20000); atomic_store(&pu_stop,1); for(int i=0;i<6;i++) pthread_join(t[i],0); _dispatch_verif_atomic_cb=0;
+    for(int w=0; w<3000 && atomic_load(&pu_ran)<atomic_load(&pu_reg); w++) usleep(1000);
+    if(atomic_load(&pu_ran)!=atomic_load(&pu_reg)) fail("notifications registered on a group that is empty again never ran (3 s), or ran twice: registered / ran / round",atomic_load(&pu_reg),atomic_load(&pu_ran),r);
+    items+=(int)(atomic_load(&pu_reg)>1000?1000:atomic_load(&pu_reg)); }
+  return items; }
 int main(int argc, char **argv){
   const char *mode = argc>1 ? argv[1] : "storm"; seed = argc>2 ? strtoull(argv[2],0,0) : 1;
   evs = calloc(MAXEV, sizeof(ev_t)); notes=calloc(MAXN,sizeof(note_t));
@@ -221,6 +240,7 @@ int main(int argc, char **argv){
   else if(!strcmp(mode,"mixed")){ items=mixed(argc>3?atoi(argv[3]):60); }
   else if(!strcmp(mode,"wn")){ items=wn(argc>3?atoi(argv[3]):300); }
   else if(!strcmp(mode,"nest")){ items=nest(argc>3?atoi(argv[3]):60); }
+  else if(!strcmp(mode,"push")){ items=push(argc>3?atoi(argv[3]):10); }
   else { int nthr = argc>3 ? atoi(argv[3]) : 4; nops = argc>4 ? atoi(argv[4]) : 300; use_ga = argc>5 ? atoi(argv[5]) : 0; items=storm(nthr); }
   printf("OFF state 48\n");
   if (viol) printf("ORACLE VIOL seed=%llu %s\n",(unsigned long long)seed,vmsg);
